@@ -25,7 +25,7 @@ pub fn def() -> PropertyDef {
     }
 }
 
-#[derive(Debug, Clone, Serialize)]
+#[derive(Debug, Clone, Copy, Serialize)]
 pub enum Op {
     SamplingFrequency(usize),
     Fperiod(usize),
@@ -37,6 +37,12 @@ pub enum Op {
     Alpha(f64),
     Beta(f64),
     HalfTone(f64),
+    /// clone the condition and keep the copy alive until the end of the history
+    CloneKeep,
+    /// continue on a clone; the previous object is kept alive
+    CloneSwap,
+    /// drop all kept copies
+    DropCopies,
 }
 
 #[derive(Debug, Clone, Serialize)]
@@ -169,7 +175,7 @@ impl Prop for SetterHistory {
         "setter-history".into()
     }
     fn rule(&self) -> String {
-        "history of 0..24 setter calls (random order, stream index in range, arguments from {special values incl. 0,-0,subnormals,bounds +-ulp,+-1e300,MAX | uniform | log-uniform}) on a freshly loaded Condition; after every call all getters are compared with a reference model of the documented clamps; the empty history checks the defaults. Non-trivial: >= 1 call whose argument lies outside the documented range (clamp exercised) and >= 3 calls".into()
+        "history of 0..24 operations: setter calls and clone / continue-on-clone / drop-copies operations (random order, stream index in range, arguments from {special values incl. 0,-0,subnormals,bounds +-ulp,+-1e300,MAX | uniform | log-uniform}) on a freshly loaded Condition; after every call all getters are compared with a reference model of the documented clamps; the empty history checks the defaults. Non-trivial: >= 1 call whose argument lies outside the documented range (clamp exercised) and >= 3 calls".into()
     }
     fn tape_len(&self, _: Tier) -> usize {
         96
@@ -181,7 +187,9 @@ impl Prop for SetterHistory {
         let n = t.below(25);
         let nstream = 3;
         let ops: Vec<Op> = (0..n)
-            .map(|_| match t.below(10) {
+            .map(|_| match t.below(12) {
+                10 => *t.pick(&[Op::CloneKeep, Op::CloneSwap, Op::CloneKeep]),
+                11 => *t.pick(&[Op::CloneSwap, Op::DropCopies, Op::CloneKeep]),
                 0 => Op::Alpha(special_f64(t)),
                 1 => Op::Beta(special_f64(t)),
                 2 => Op::MsdThreshold(t.below(nstream), special_f64(t)),
@@ -235,6 +243,7 @@ impl Prop for SetterHistory {
         compare("Condition::default + load_model", &observe(&fresh, n), &model)?;
 
         let mut clamped = 0;
+        let mut kept: Vec<(Condition, Model, usize)> = Vec::new();
         for (i, op) in c.ops.iter().enumerate() {
             match *op {
                 Op::SamplingFrequency(v) => {
@@ -284,6 +293,18 @@ impl Prop for SetterHistory {
                     cond.set_additional_half_tone(v);
                     model.ht = v;
                 }
+                Op::CloneKeep => {
+                    kept.push((cond.clone(), model.clone(), i));
+                }
+                Op::CloneSwap => {
+                    let c2 = cond.clone();
+                    kept.push((std::mem::replace(&mut cond, c2), model.clone(), i));
+                }
+                Op::DropCopies => kept.clear(),
+            }
+            // copies made earlier are independent objects: later setter calls must not reach them
+            for (copy, m, at) in &kept {
+                compare(&format!("copy made at op #{} checked after op #{} {:?}", at, i, op), &observe(copy, n), m)?;
             }
             compare(&format!("after op #{} {:?}", i, op), &observe(&cond, n), &model)?;
             // hidden fields (no getter) must not depend on the setter history either: a condition
